@@ -592,7 +592,16 @@ func (fr *frame) prepareCall(call *ssa.CallCommon) (fn Value, args []Value) {
 		if recv.T == nil {
 			panic(e.targetPanicStr("runtime error: invalid memory address or nil pointer dereference (method call on nil interface)"))
 		}
-		f := e.prog.LookupMethod(recv.T, call.Method.Pkg(), call.Method.Name())
+		// per-engine cache: prog.LookupMethod takes a program-wide lock on every call
+		mk := methodKey{recv.T, call.Method}
+		f, cached := e.methodCache[mk]
+		if !cached {
+			f = e.prog.LookupMethod(recv.T, call.Method.Pkg(), call.Method.Name())
+			if e.methodCache == nil {
+				e.methodCache = map[methodKey]*ssa.Function{}
+			}
+			e.methodCache[mk] = f
+		}
 		if f == nil {
 			panic(e.unsupported(fmt.Sprintf("no method %s on %v", call.Method.Name(), recv.T)))
 		}
